@@ -211,6 +211,28 @@ theorem fifo_admission_composite (s : Lim) (h : Inv s) (i j : Nat) (hi : i ∈ s
           simp only [Work.queue]; rw [ee, List.erase_of_not_mem hns, eq]; simp)
         simpa [ids] using this
 
+/-- **Nobody waits while no handler runs - also over streams with composite steps**: at every
+quiescent point, if there are waiters then all `V >= 1` permits are held, so some holder exists
+whose exit will move the queue; with no holder nobody waits. -/
+theorem no_starvation_composite (n : Int) (ops : List Op2) :
+    let s := (run2 (init n) ops).1
+    (s.waiters ≠ [] → (s.holders.length : Int) = s.V ∧ s.holders ≠ []) ∧
+    (s.holders = [] → s.waiters = []) := by
+  have i := run2_inv ops _ (init_inv n)
+  have hc := i.cons; have hv := i.V_pos
+  have key : (run2 (init n) ops).1.waiters ≠ [] →
+      ((run2 (init n) ops).1.holders.length : Int) = (run2 (init n) ops).1.V ∧
+      (run2 (init n) ops).1.holders ≠ [] := by
+    intro hw
+    have h0 := i.wait_S hw
+    refine ⟨by omega, ?_⟩
+    intro hh; rw [hh, h0] at hc; simp at hc; omega
+  refine ⟨key, ?_⟩
+  intro hh
+  cases hw : (run2 (init n) ops).1.waiters with
+  | nil => rfl
+  | cons a b => exact absurd hh (key (by simp [hw])).2
+
 -- non-vacuity of `fifo_admission_composite`: limit 1, holder 0, waiters 1 and 2; 0 leaves and 1 -
 -- who had just been handed the permit - is cancelled in the same iteration: 2 is admitted
 example : let s := (run (init 1) [.enter 0, .enter 1, .enter 2]).1
